@@ -13,40 +13,44 @@
      untyped  - any argument anywhere (also ill-typed programs: the interpreter says "error")
      typed    - arguments whose sort is known must fit the parameter they bind (TRAILING parameters for a
                 partial application) and no call has more arguments than parameters                      *)
-EXTENDS Lang, Json
+EXTENDS Lang, Json, FiniteSetsExt
 CONSTANTS Profile, MaxSize, Emit     \* Emit: "case" (program + expected observation), "prog" (program only), "count"
 VARIABLES tbl, phase, todo
 vars == <<tbl, phase, todo>>
 
 Profiles ==
-  \* the whole integer / pair / higher-order library, no pruning: small sizes
-  ("core" :> [callees |-> {"sub", "sub3", "pair", "first", "apply1", "call"}, values |-> {"sub", "neg"},
+  \* the whole integer / pair / higher-order library, no pruning (also ill-typed programs): small sizes
+  ("core" :> [callees |-> {"sub", "sub3", "pair", "first", "apply1", "call"}, values |-> {"sub", "neg"}, zero |-> {"sub"},
               plists |-> {<<>>, <<"a">>, <<"b">>, <<"a", "b">>}, leaves |-> {Lit(0)}, typed |-> FALSE,
               direct |-> TRUE, maxargs |-> 3]) @@
-  \* lambdas, nesting, shadowing, partials, pipelines through `call`: larger sizes, typed
-  ("lambda" :> [callees |-> {"sub", "call"}, values |-> {"sub"},
+  \* lambdas, nesting, shadowing, partials, pipelines, calls of lambdas and of calls: larger sizes, typed
+  ("lambda" :> [callees |-> {"sub", "call"}, values |-> {"sub"}, zero |-> {"sub"},
               plists |-> {<<>>, <<"a">>, <<"b">>, <<"a", "b">>}, leaves |-> {Lit(0)}, typed |-> TRUE,
               direct |-> TRUE, maxargs |-> 3]) @@
-  ("partial" :> [callees |-> {"sub3", "sub", "call", "apply1"}, values |-> {"sub3", "neg"},
+  \* function values applied with `call` only (what the shell grammar can write): reaches nesting depth 3
+  ("callonly" :> [callees |-> {"sub", "call"}, values |-> {}, zero |-> {},
+              plists |-> {<<"a">>, <<"b">>, <<"a", "b">>}, leaves |-> {Lit(0)}, typed |-> TRUE,
+              direct |-> FALSE, maxargs |-> 3]) @@
+  ("partial" :> [callees |-> {"sub3", "sub", "call", "apply1"}, values |-> {"sub3", "neg"}, zero |-> {"sub3"},
               plists |-> {<<"a">>}, leaves |-> {Lit(0)}, typed |-> TRUE,
               direct |-> TRUE, maxargs |-> 3]) @@
-  ("pairs" :> [callees |-> {"pair", "first", "second", "sub", "call"}, values |-> {"first"},
+  ("pairs" :> [callees |-> {"pair", "first", "second", "sub", "call"}, values |-> {"first"}, zero |-> {},
               plists |-> {<<"a">>, <<"a", "b">>}, leaves |-> {Lit(0)}, typed |-> TRUE,
               direct |-> FALSE, maxargs |-> 2]) @@
-  \* C22: the same generator with the query-building calls Simplify rewrites
-  ("simp" :> [callees |-> {"sub", "sub3", "call"}, values |-> {"sub", "neg"},
+  \* C22: the same generator, and the query-building calls Simplify rewrites
+  ("simp" :> [callees |-> {"sub", "sub3", "call"}, values |-> {"sub", "neg"}, zero |-> {"sub"},
               plists |-> {<<>>, <<"a">>, <<"b">>, <<"a", "b">>}, leaves |-> {Lit(0)}, typed |-> FALSE,
               direct |-> TRUE, maxargs |-> 3]) @@
-  ("simptyped" :> [callees |-> {"sub", "sub3", "call", "pair"}, values |-> {"sub", "neg"},
-              plists |-> {<<>>, <<"a">>, <<"b">>, <<"a", "b">>, <<"b", "a">>}, leaves |-> {Lit(0)}, typed |-> TRUE,
+  ("simptyped" :> [callees |-> {"sub", "sub3", "call", "pair"}, values |-> {"sub"}, zero |-> {"sub"},
+              plists |-> {<<>>, <<"a">>, <<"a", "b">>, <<"b", "a">>}, leaves |-> {Lit(0)}, typed |-> TRUE,
               direct |-> TRUE, maxargs |-> 3]) @@
-  ("query" :> [callees |-> {"keyed", "tagged", "typed", "and", "or", "call"}, values |-> {"and", "keyed"},
+  ("query" :> [callees |-> {"keyed", "tagged", "typed", "and", "or", "call"}, values |-> {"and", "keyed"}, zero |-> {"keyed"},
               plists |-> {<<>>, <<"a">>, <<"a", "b">>},
               leaves |-> {Str("k"), Str("v"), Str("point"), QLit(Keyed("j")), QLit(And(<<Tagged("k", "w"), Keyed("j")>>))},
               typed |-> TRUE, direct |-> TRUE, maxargs |-> 2])
 
 Cfg == Profiles[Profile]
-Params == UNION {Range(pl) : pl \in Cfg.plists}
+Params == UNION {RangeOf(pl) : pl \in Cfg.plists}
 Scopes == SUBSET Params
 
 \* ---------------------------------------------------------------- sorts (typed profiles only)
@@ -82,17 +86,19 @@ Splits(total, k) == IF k = 0 THEN (IF total = 0 THEN {<<>>} ELSE {})
                     ELSE UNION {{<<h>> \o t : t \in Splits(total - h, k - 1)} : h \in 1..(total - k + 1)}
 Prod(split, T, s) == IF split = <<>> THEN {<<>>}
                      ELSE {<<h>> \o t : h \in T[Head(split)][s], t \in Prod(Tail(split), T, s)}
-ArgSeqs(total, T, s) == UNION {UNION {Prod(sp, T, s) : sp \in Splits(total, k)} : k \in 0..Cfg.maxargs}
+\* (TLC's UNION de-duplicates by linear search; folding \cup keeps big unions n log n)
+BigUnion(F(_), S) == FoldSet(LAMBDA x, acc : F(x) \cup acc, {}, S)
+ArgSeqs(total, T, s) == BigUnion(LAMBDA k : BigUnion(LAMBDA sp : Prod(sp, T, s), Splits(total, k)), 0..Cfg.maxargs)
 
 Level1(s) == Cfg.leaves \cup {Sym(x) : x \in s} \cup {Sym(f) : f \in Cfg.values}
-             \cup {Call(Sym(f), <<>>) : f \in Cfg.callees \ Variadic}
+             \cup {Call(Sym(f), <<>>) : f \in Cfg.zero}
 CallsSym(n, T, s) == {c \in {Call(Sym(f), as) : f \in Cfg.callees, as \in ArgSeqs(n - 1, T, s)} :
                          (c.f.n \in Variadic => c.a # <<>>) /\ CallOK(c.f, c.a)}
 CallsExpr(n, T, s) ==
   IF ~Cfg.direct THEN {}
-  ELSE UNION {{c \in {Call(f, as) : f \in {g \in T[fs][s] : g.k \in {"lam", "call"}}, as \in ArgSeqs(n - 1 - fs, T, s)} :
-                  CallOK(c.f, c.a)} : fs \in 1..(n - 1)}
-Lams(n, T, s) == UNION {{Lam(ps, b) : b \in T[n - 1][s \cup Range(ps)]} : ps \in Cfg.plists}
+  ELSE BigUnion(LAMBDA fs : {c \in {Call(f, as) : f \in {g \in T[fs][s] : g.k \in {"lam", "call"}}, as \in ArgSeqs(n - 1 - fs, T, s)} :
+                                 CallOK(c.f, c.a)}, 1..(n - 1))
+Lams(n, T, s) == BigUnion(LAMBDA ps : {Lam(ps, b) : b \in T[n - 1][s \cup RangeOf(ps)]}, Cfg.plists)
 Build(n, T) == [s \in Scopes |-> CallsSym(n, T, s) \cup CallsExpr(n, T, s) \cup Lams(n, T, s)]
 
 \* number the literal leaves 1, 2, 3, .. in preorder
@@ -107,7 +113,7 @@ RenumSeq(es, k) == IF es = <<>> THEN [e |-> <<>>, k |-> k]
                    ELSE LET h == Renum(Head(es), k) t == RenumSeq(Tail(es), h.k) IN [e |-> <<h.e>> \o t.e, k |-> t.k]
 
 \* ---------------------------------------------------------------- the state machine: build, split into jobs, emit
-Closed(T) == UNION {T[n][{}] : n \in 1..Len(T)}
+Closed(T) == BigUnion(LAMBDA n : T[n][{}], 1..Len(T))
 JobOf(p) == CASE p.k = "call" -> <<"call", IF p.f.k = "sym" THEN p.f.n ELSE p.f.k, Len(p.a)>>
               [] p.k = "lam" -> <<"lam", p.b.k, Len(p.p)>>
               [] OTHER -> <<"leaf", "", 0>>
@@ -121,7 +127,7 @@ Split == /\ phase = "build" /\ Len(tbl) = MaxSize
          /\ LET all == Closed(tbl) IN \E j \in {JobOf(p) : p \in all} : todo' = {p \in all : JobOf(p) = j}
          /\ phase' = "job" /\ tbl' = <<>>
 EmitCase(p0) == LET p == Renum(p0, 1).e IN
-                IF Emit = "case" THEN PrintT(<<"CASE", ToJson([p |-> p, want |-> Obs(p)])>>)
+                IF Emit = "case" THEN LET c == ObsC(p) IN PrintT(<<"CASE", ToJson([p |-> p, want |-> c.o, cls |-> c.cls])>>)
                 ELSE IF Emit = "prog" THEN PrintT(<<"PROG", ToJson([p |-> p])>>)
                 ELSE TRUE
 Work == /\ phase = "job"
